@@ -37,7 +37,10 @@ inline void checkSavedFile(const OSnap& o, const std::string& bytes, Sink& out, 
     if (used >= 0 && F.nPoints != used) V(out, "C03", "hdr_vs_params/points", "header " + S(F.nPoints) + " POINT:USED " + SI(used));
     if (aused >= 0 && (size_t)F.nAnalogMeas != (size_t)aused * F.spf) V(out, "C03", "hdr_vs_params/analog_samples", "header " + S(F.nAnalogMeas) + " ANALOG:USED " + SI(aused) + " x sub-frames " + S(F.spf));
     if (aused > 0 && pflt("POINT", "RATE") != 0.0f) { float ratio = pflt("ANALOG", "RATE") / pflt("POINT", "RATE"); if (std::fabs((double)ratio - (double)F.spf) > 1e-3) V(out, "C03", "hdr_vs_params/subframes", "header " + S(F.spf) + " rate ratio " + fstr(ratio)); }
-    if (frames >= 0 && F.nFrames != (size_t)frames) V(out, "C03", "hdr_vs_params/frames/hdr=" + S(F.nFrames) + ",FRAMES=" + SI(frames) + "/" + cls, "header first..last " + S(F.first) + ".." + S(F.last));
+    if (frames >= 0 && F.nFrames != (size_t)frames) {
+        if (F.nPoints == 0 && F.nAnalogMeas == 0) V(out, "C03", "hdr_vs_params/frames/header-without-points-or-channels", "header first..last " + S(F.first) + ".." + S(F.last) + " POINT:FRAMES " + SI(frames));
+        else V(out, "C03", "hdr_vs_params/frames/hdr=" + S(F.nFrames) + ",FRAMES=" + SI(frames) + "/" + cls, "header first..last " + S(F.first) + ".." + S(F.last));
+    }
     if (std::fabs((double)bitsf(F.rateBits) - (double)pflt("POINT", "RATE")) > 1e-4) V(out, "C03", "hdr_vs_params/rate", "");
     {   float sc = bitsf(F.scaleBits); if (!(sc < 0)) { char b[16]; snprintf(b, sizeof b, "%08x", F.scaleBits); V(out, "C03", std::string("float_marker/raw=") + b + (fromScratch ? "/from-scratch" : "/loaded"), "header words 7-8 are not a negative float"); } }
     {   const ref::Rec* ps = F.param("POINT", "SCALE"); if (ps && !ps->floats().empty() && !(bitsf(ps->floats()[0]) < 0)) V(out, "C03", "float_marker/POINT:SCALE", ""); }
